@@ -121,6 +121,11 @@ def run(ctx):
     ok = len(sk) == 1 and core(sk[0].child("r")).get("v") is True and any((not p) and a == "value.isExistingInput()" for a, p in (bp.at_node(sk[0]) or frozenset())) and \
         any((not p) and a == "value.isSuccessfulCommand()" for a, p in (bp.at_node(sk[0]) or frozenset()))
     r.check(ok, "provideValue|skip-unless-existing-or-successful", "", "an input that is neither existing nor a successful command does not skip the command", pv)
+    ppv = ninja_fn(prog, "NinjaCommandTask::providePriorValue")
+    bpp = BranchFacts(ppv, kill="assign")
+    sets = [n for n in ppv.nodes if n.get("k") == "bin" and n["op"] == "=" and expr_str(n.child("l")) == "hasPriorResult"]
+    ok = len(sets) == 1 and any(p and a == "value.isSuccessfulCommand()" for a, p in (bpp.at_node(sets[0]) or frozenset()))
+    r.check(ok, "providePriorValue|prior-result-only-if-successful", "", "a prior value that is not a successful command enables update-if-newer", ppv)
     sel = [f for f in prog.functions.values() if relpath(f.file) == NB and not f.is_lambda and f.name.endswith("SelectResultTask::inputsAvailable")]
     if len(sel) != 1:
         raise AnalysisBroken("SelectResultTask::inputsAvailable not found")
